@@ -31,6 +31,11 @@ def run(tier, replay=None, pid=PID, profile=PROFILE, k=101, nq=16, nt=400):
     else:
         # 1. corpus of minimised failures first
         f0, w0 = hc.run_engine(rep, pid, hc.corpus_cases(), "01", None, "corpus")
+        # 1b. the systematic histories: every pair, both entry layers, every in-flight stage x flags
+        sysc = hc.systematic_cases(rng)
+        fs, ws = hc.run_engine(rep, pid, sysc, "01", dist, "systematic")
+        f0, w0 = f0 + fs, w0 or ws
+        rep.notes["systematic_histories"] = len(sysc)
         n = {"quick": nq, "thorough": nt}[tier]
         cases = hc.gen_cases(rng, n, profile)
         if pid == "C01":
@@ -60,7 +65,9 @@ def run(tier, replay=None, pid=PID, profile=PROFILE, k=101, nq=16, nt=400):
     rep.cov["rule"] = ("one evaluation = one history (list of submit/flush/re-init calls over up to 3*lanes contexts) run on one (algorithm, family) "
                        "pair of the %d in the archive, through the family entry points or (35%%) the isal_ wrappers under a virtual CPUID; segment lengths "
                        "from {0,1,B-1,B,B+1,2B-1,kB+r,...} mixed 70/30 with uniform < 3B; first segments mostly not whole blocks; flushes anywhere, storms, "
-                       "empty-manager flushes; lane occupancy cycled through 0..lanes; context reuse and re-init; rejected submits injected; "
+                       "empty-manager flushes; lane occupancy cycled through 0..lanes; context reuse and re-init; rejected submits injected; plus, in every run and "
+                       "for every pair and entry layer, the systematic histories (each in-flight stage x each flags value x bystander, zero-length LAST filling the "
+                       "manager, full-submit-then-flush, one-live-lane flush, empty flush, context reuse) and the padding residues; "
                        "distinct = distinct (pair, mode, history); non-trivial = some context handed back complete after a non-empty segment"
                        % len(hc.pairs()))
     rep.notes["input_distribution"] = {k2: dict(sorted(v.items(), key=lambda kv: str(kv[0]))) for k2, v in dist.items()}
